@@ -232,7 +232,7 @@ def make_section(kind, p, q, hunks):
 
 
 def section_lines(sec):
-    out = list(sec["head"])
+    out = list(sec.get("pre", [])) + list(sec["head"])
     for h in sec["hunks"]:
         out.append(h["header"])
         out += [k + t for k, t in h["body"]]
